@@ -147,18 +147,47 @@ extern "C" {
 /// Layout of the fixed mapping.
 pub const MAP_BASE: u64 = 0x2000_0000;
 pub const MAP_SIZE: usize = 0x20000;
-pub const CODE_OFF: u64 = 0x1000; // instruction under test
+/// Page A (read/write/execute): the instruction under test occupies its LAST bytes, everything before is int3.
+pub const CODE_OFF: u64 = 0x1000;
+/// Page B (read/execute only, written once): the landing pads. The instruction under test ends exactly where this
+/// page starts, so whatever it stores rip-relatively can only hit its own (already executed) bytes or fault; the
+/// code that runs after it can never be rewritten by it.
+pub const PADS_OFF: u64 = 0x2000;
+/// bytes of page A the checks look at (the longest instruction is 15 bytes)
+pub const CODE_TAIL: usize = 16;
+/// fall-through pad at PADS_OFF, branch-target pad at PADS_OFF + TARGET_PAD_DELTA
+pub const TARGET_PAD_DELTA: u64 = 32;
+/// bytes of page B the IL side may read (rip-relative loads)
+pub const PADS_LEN: usize = 64;
 pub const WIN_OFF: u64 = 0x8000; // 4 KiB scratch window for memory operands
 pub const WIN_SIZE: usize = 0x1000;
 pub const STACK_OFF: u64 = 0xC000; // guest stack area (4 KiB), sp starts in the middle
 pub const PAD_FLAG_OFF: u64 = 0x10000; // landing pads write here which one was reached
 /// Read+execute-only page holding the absolute jump back into the trampoline. The landing pads reach it with a
-/// relative jump, so no host address ever sits in memory the instruction under test can write: a guest store
-/// that hits a pad can at worst redirect execution inside the sandbox mapping (int3-filled), never into the host.
+/// relative jump, so no host address ever sits in memory the instruction under test can write.
 pub const TRAMP_OFF: u64 = 0x1f000;
+
+/// Watchdog: a virtual-time interval timer ticks every 20 ms of CPU time; a guest run that sees two ticks is
+/// considered stuck and is ended like a fault (FV_FAULT = SIGVTALRM).
+#[no_mangle]
+pub static mut FV_RUN_ID: u64 = 0;
+static mut FV_LAST_TICK_RUN: u64 = u64::MAX;
 
 pub struct Sandbox {
     pub base: *mut u8,
+}
+
+unsafe fn leave_guest(sig: libc::c_int, info: *mut libc::siginfo_t, uc: *mut libc::ucontext_t) {
+    FV_FAULT = sig as u64;
+    FV_FAULT_ADDR = if info.is_null() { 0 } else { (*info).si_addr() as u64 };
+    FV_FAULT_RIP = (*uc).uc_mcontext.gregs[libc::REG_RIP as usize] as u64;
+    // The guest stack pointer may be anything (e.g. `xchg [mem], rsp`); a sigreturn into a context with a
+    // non-canonical rsp is fatal, so the handler itself saves the guest rsp and switches to the host stack.
+    FV_GUEST.gpr[4] = (*uc).uc_mcontext.gregs[libc::REG_RSP as usize] as u64;
+    (*uc).uc_mcontext.gregs[libc::REG_RSP as usize] = FV_HOST_RSP as i64;
+    (*uc).uc_mcontext.gregs[libc::REG_RIP as usize] = fv_return_sp_done as usize as i64;
+    // direction flag and trap flag must not leak into the handler's return path
+    (*uc).uc_mcontext.gregs[libc::REG_EFL as usize] &= !(0x400 | 0x100);
 }
 
 unsafe extern "C" fn on_signal(sig: libc::c_int, info: *mut libc::siginfo_t, ctx: *mut libc::c_void) {
@@ -169,16 +198,22 @@ unsafe extern "C" fn on_signal(sig: libc::c_int, info: *mut libc::siginfo_t, ctx
         libc::raise(sig);
         return;
     }
-    FV_FAULT = sig as u64;
-    FV_FAULT_ADDR = (*info).si_addr() as u64;
-    FV_FAULT_RIP = (*uc).uc_mcontext.gregs[libc::REG_RIP as usize] as u64;
-    // The guest stack pointer may be anything (e.g. `xchg [mem], rsp`); a sigreturn into a context with a
-    // non-canonical rsp is fatal, so the handler itself saves the guest rsp and switches to the host stack.
-    FV_GUEST.gpr[4] = (*uc).uc_mcontext.gregs[libc::REG_RSP as usize] as u64;
-    (*uc).uc_mcontext.gregs[libc::REG_RSP as usize] = FV_HOST_RSP as i64;
-    (*uc).uc_mcontext.gregs[libc::REG_RIP as usize] = fv_return_sp_done as usize as i64;
-    // direction flag and trap flag must not leak into the handler's return path
-    (*uc).uc_mcontext.gregs[libc::REG_EFL as usize] &= !(0x400 | 0x100);
+    leave_guest(sig, info, uc);
+}
+
+unsafe extern "C" fn on_tick(sig: libc::c_int, _info: *mut libc::siginfo_t, ctx: *mut libc::c_void) {
+    if FV_ACTIVE == 0 {
+        return;
+    }
+    let rip = (*(ctx as *mut libc::ucontext_t)).uc_mcontext.gregs[libc::REG_RIP as usize] as u64;
+    if !(MAP_BASE..MAP_BASE + MAP_SIZE as u64).contains(&rip) {
+        return; // in the trampoline itself
+    }
+    if FV_LAST_TICK_RUN == FV_RUN_ID {
+        leave_guest(sig, std::ptr::null_mut(), ctx as *mut libc::ucontext_t);
+    } else {
+        FV_LAST_TICK_RUN = FV_RUN_ID;
+    }
 }
 
 impl Sandbox {
@@ -207,7 +242,32 @@ impl Sandbox {
                 libc::sigemptyset(&mut sa.sa_mask);
                 libc::sigaction(sig, &sa, std::ptr::null_mut());
             }
-            let tramp = (p as *mut u8).add(TRAMP_OFF as usize);
+            // watchdog tick
+            {
+                let mut sa: libc::sigaction = std::mem::zeroed();
+                sa.sa_sigaction = on_tick as usize;
+                sa.sa_flags = libc::SA_SIGINFO | libc::SA_ONSTACK | libc::SA_RESTART;
+                libc::sigemptyset(&mut sa.sa_mask);
+                libc::sigaction(libc::SIGVTALRM, &sa, std::ptr::null_mut());
+                let tv = libc::timeval { tv_sec: 0, tv_usec: 20_000 };
+                let it = libc::itimerval { it_interval: tv, it_value: tv };
+                libc::setitimer(libc::ITIMER_VIRTUAL, &it, std::ptr::null_mut());
+            }
+            let base = p as *mut u8;
+            // page A: int3
+            std::ptr::write_bytes(base.add(CODE_OFF as usize), 0xcc, 0x1000);
+            // page B: the two landing pads, then read+execute only
+            let pads = base.add(PADS_OFF as usize);
+            std::ptr::write_bytes(pads, 0xcc, 0x1000);
+            let p1 = Sandbox::pad(MAP_BASE + PADS_OFF, 1);
+            std::ptr::copy_nonoverlapping(p1.as_ptr(), pads, p1.len());
+            let p2 = Sandbox::pad(MAP_BASE + PADS_OFF + TARGET_PAD_DELTA, 2);
+            std::ptr::copy_nonoverlapping(p2.as_ptr(), pads.add(TARGET_PAD_DELTA as usize), p2.len());
+            if libc::mprotect(pads as *mut libc::c_void, 0x1000, libc::PROT_READ | libc::PROT_EXEC) != 0 {
+                return Err("cannot protect the landing-pad page".into());
+            }
+            // trampoline page
+            let tramp = base.add(TRAMP_OFF as usize);
             std::ptr::write_bytes(tramp, 0xcc, 0x1000);
             let mut abs = [0u8; 14];
             abs[0] = 0xff;
@@ -217,7 +277,7 @@ impl Sandbox {
             if libc::mprotect(tramp as *mut libc::c_void, 0x1000, libc::PROT_READ | libc::PROT_EXEC) != 0 {
                 return Err("cannot protect the trampoline page".into());
             }
-            Ok(Sandbox { base: p as *mut u8 })
+            Ok(Sandbox { base })
         }
     }
     pub fn slice(&self, off: u64, len: usize) -> &mut [u8] {
@@ -240,72 +300,101 @@ impl Sandbox {
         v.extend_from_slice(&Sandbox::jmp_back(at + 7));
         v
     }
-    /// Run the code at MAP_BASE+CODE_OFF from the given state. Returns (final state, fault signal or 0).
-    pub fn run(&self, st: &NState) -> (NState, u64, u64, u64) {
+    /// Place the instruction so that it ends where the pad page starts; returns its address.
+    pub fn set_instruction(&self, bytes: &[u8]) -> u64 {
+        assert!(bytes.len() <= CODE_TAIL - 1);
+        let tail = self.slice(PADS_OFF - CODE_TAIL as u64, CODE_TAIL);
+        for b in tail.iter_mut() {
+            *b = 0xcc;
+        }
+        tail[CODE_TAIL - bytes.len()..].copy_from_slice(bytes);
+        MAP_BASE + PADS_OFF - bytes.len() as u64
+    }
+    /// the last CODE_TAIL bytes of page A followed by the first PADS_LEN bytes of page B
+    pub fn code_window(&self) -> Vec<u8> {
+        self.slice(PADS_OFF - CODE_TAIL as u64, CODE_TAIL + PADS_LEN).to_vec()
+    }
+    /// Run the code at `at` from the given state. Returns (final state, fault signal or 0, fault address, fault rip).
+    pub fn run_at(&self, at: u64, st: &NState) -> (NState, u64, u64, u64) {
         unsafe {
             FV_GUEST = *st;
-            FV_CODE = MAP_BASE + CODE_OFF;
+            FV_CODE = at;
             FV_FAULT = 0;
             FV_FAULT_ADDR = 0;
             FV_FAULT_RIP = 0;
+            FV_RUN_ID = FV_RUN_ID.wrapping_add(1);
             fv_enter();
             (FV_GUEST, FV_FAULT, FV_FAULT_ADDR, FV_FAULT_RIP)
         }
     }
 }
 
-/// start-up self test of the trampoline: `add al, bl` with carry out, a fault, and a landing pad
+/// start-up self test of the trampoline
 pub fn selftest() -> Result<(), String> {
     let sb = Sandbox::new()?;
-    let code = sb.slice(CODE_OFF, 64);
-    code[0] = 0x00;
-    code[1] = 0xd8; // add al, bl
-    code[2..7].copy_from_slice(&Sandbox::jmp_back(MAP_BASE + CODE_OFF + 2));
+    let flag = |sb: &Sandbox| sb.slice(PAD_FLAG_OFF, 8)[0];
     let mut st = NState::zero();
     st.gpr[0] = 0xf0;
     st.gpr[3] = 0x20;
     st.gpr[4] = MAP_BASE + STACK_OFF + 0x800;
     st.gpr[12] = 0x1234_5678_9abc_def0;
     st.xmm[15] = [7, 9];
-    let (out, fault, _, _) = sb.run(&st);
-    if fault != 0 || out.gpr[0] != 0x10 || out.rflags & 1 != 1 || out.gpr[12] != 0x1234_5678_9abc_def0 || out.xmm[15] != [7, 9] || out.gpr[4] != st.gpr[4] {
-        return Err(format!("add al,bl: rax={:#x} flags={:#x} fault={}", out.gpr[0], out.rflags, fault));
+    // add al, bl with carry out, falling through into pad 1
+    let at = sb.set_instruction(&[0x00, 0xd8]);
+    sb.slice(PAD_FLAG_OFF, 8)[0] = 0;
+    let (out, fault, _, _) = sb.run_at(at, &st);
+    if fault != 0 || flag(&sb) != 1 || out.gpr[0] != 0x10 || out.rflags & 1 != 1 || out.gpr[12] != 0x1234_5678_9abc_def0 || out.xmm[15] != [7, 9] || out.gpr[4] != st.gpr[4] {
+        return Err(format!("add al,bl: rax={:#x} flags={:#x} fault={} pad={}", out.gpr[0], out.rflags, fault, flag(&sb)));
+    }
+    // jmp +32 reaches pad 2
+    let at = sb.set_instruction(&[0xeb, TARGET_PAD_DELTA as u8]);
+    sb.slice(PAD_FLAG_OFF, 8)[0] = 0;
+    let (_, fault, _, _) = sb.run_at(at, &st);
+    if fault != 0 || flag(&sb) != 2 {
+        return Err(format!("jmp +32: fault={} pad={}", fault, flag(&sb)));
     }
     // fault: mov rax, [rax] with a non-canonical pointer
-    code[0] = 0x48;
-    code[1] = 0x8b;
-    code[2] = 0x00;
-    code[3..8].copy_from_slice(&Sandbox::jmp_back(MAP_BASE + CODE_OFF + 3));
+    let at = sb.set_instruction(&[0x48, 0x8b, 0x00]);
     st.gpr[0] = 0x1111_1111_1111_1111;
-    let (_, fault, _, _) = sb.run(&st);
+    let (_, fault, _, _) = sb.run_at(at, &st);
     if fault != libc::SIGSEGV as u64 {
         return Err(format!("expected SIGSEGV, got {}", fault));
     }
     // and the process still works afterwards
-    code[0] = 0x90;
-    code[1..6].copy_from_slice(&Sandbox::jmp_back(MAP_BASE + CODE_OFF + 1));
-    let (out, fault, _, _) = sb.run(&st);
+    let at = sb.set_instruction(&[0x90]);
+    let (out, fault, _, _) = sb.run_at(at, &st);
     if fault != 0 || out.gpr[0] != st.gpr[0] {
         return Err("state not preserved after a fault".into());
     }
     // a fault taken while the guest stack pointer is non-canonical: mov rsp, rax ; push rax
-    code[0] = 0x48;
-    code[1] = 0x89;
-    code[2] = 0xc4;
-    code[3] = 0x50;
-    code[4..9].copy_from_slice(&Sandbox::jmp_back(MAP_BASE + CODE_OFF + 4));
-    let (out, fault, _, _) = sb.run(&st);
+    let at = sb.set_instruction(&[0x48, 0x89, 0xc4, 0x50]);
+    let (out, fault, _, _) = sb.run_at(at, &st);
     if fault == 0 || out.gpr[4] != 0x1111_1111_1111_1111 {
         return Err(format!("fault with a wild stack pointer: fault={} rsp={:#x}", fault, out.gpr[4]));
     }
-    code[0] = 0x90;
-    code[1..6].copy_from_slice(&Sandbox::jmp_back(MAP_BASE + CODE_OFF + 1));
-    let (out, fault, _, _) = sb.run(&st);
-    if fault != 0 || out.gpr[0] != st.gpr[0] {
-        return Err("state not preserved after a fault with a wild stack pointer".into());
+    // a store into the pad page faults instead of rewriting the code that runs next: mov [rip+0], eax
+    let at = sb.set_instruction(&[0x89, 0x05, 0x00, 0x00, 0x00, 0x00]);
+    let (_, fault, addr, _) = sb.run_at(at, &st);
+    if fault != libc::SIGSEGV as u64 || addr != MAP_BASE + PADS_OFF {
+        return Err(format!("store into the pad page: fault={} addr={:#x}", fault, addr));
+    }
+    // an endless loop is ended by the watchdog: jmp -2
+    let at = sb.set_instruction(&[0xeb, 0xfe]);
+    let (_, fault, _, _) = sb.run_at(at, &st);
+    if fault != libc::SIGVTALRM as u64 {
+        return Err(format!("watchdog: fault={}", fault));
+    }
+    let at = sb.set_instruction(&[0x90]);
+    sb.slice(PAD_FLAG_OFF, 8)[0] = 0;
+    let (out, fault, _, _) = sb.run_at(at, &st);
+    if fault != 0 || out.gpr[0] != st.gpr[0] || flag(&sb) != 1 {
+        return Err("state not preserved after the watchdog fired".into());
     }
     unsafe {
         libc::munmap(sb.base as *mut libc::c_void, MAP_SIZE);
+        let zero = libc::timeval { tv_sec: 0, tv_usec: 0 };
+        let it = libc::itimerval { it_interval: zero, it_value: zero };
+        libc::setitimer(libc::ITIMER_VIRTUAL, &it, std::ptr::null_mut());
     }
     Ok(())
 }
